@@ -1056,14 +1056,14 @@ def _strategy_nx(tier):
 
 
 def plan(tier):
-  # thorough: 40 x the quick volume, with longer lists (C01_THOROUGH_SCALE overrides the factor while developing)
-  k = 1 if tier == "quick" else int(os.environ.get("C01_THOROUGH_SCALE", "40"))
+  # thorough: 50 x the quick volume, with longer lists (C01_THOROUGH_SCALE overrides the factor while developing)
+  k = 1 if tier == "quick" else int(os.environ.get("C01_THOROUGH_SCALE", "50"))
   drivers = [
     Enum("grid", lambda: _all_enum(tier), shards=16),
-    Hyp("generated-messages", lambda: _strategy_messages(tier), examples=5000 * k, shards=16),
-    Hyp("generated-parts", lambda: _strategy_parts(tier), examples=3000 * k, shards=16),
-    Hyp("generated-match", lambda: _strategy_match(tier), examples=1500 * k, shards=16),
+    Hyp("generated-messages", lambda: _strategy_messages(tier), examples=4000 * k, shards=16),
+    Hyp("generated-parts", lambda: _strategy_parts(tier), examples=2400 * k, shards=16),
+    Hyp("generated-match", lambda: _strategy_match(tier), examples=1200 * k, shards=16),
   ]
   if _NICIRA:
-    drivers.append(Hyp("generated-nicira", lambda: _strategy_nx(tier), examples=3000 * k, shards=16))
+    drivers.append(Hyp("generated-nicira", lambda: _strategy_nx(tier), examples=2400 * k, shards=16))
   return drivers
